@@ -27,7 +27,7 @@ BOUND = {
     "thorough": "text strings of <=3 fragments; grid subsets <=3 (core); other generators as quick with L(5,3)",
 }
 # as-built additions to the bound (kept next to BOUND so that the evidence reports them)
-BOUND = {k: v + "; plus: " + '13 multi-line texts (references alone on their line, tabs, CR LF) x 9 channels; dict input with numeric / boolean cells (subsets <=2 / <=4 of 10 cells)' for k, v in BOUND.items()}
+BOUND = {k: v + "; plus: " + '28 structure-element names as question / group / choice-column names holding text; line breaks, tabs and space runs in 19 attribute-valued cells on short and very wide start tags; 13 multi-line texts (references alone on their line, tabs, CR LF) x 9 channels; dict input with numeric / boolean cells (subsets <=2 / <=4 of 10 cells)' for k, v in BOUND.items()}
 TEXT_CH = ["label", "hint", "guidance_hint", "constraint_message", "glabel", "clabel", "cextra", "default", "form_title"]
 
 
@@ -128,7 +128,41 @@ def gen_api(tier):
                 yield {"g": "api", "form": form, "first": first, "mut": mut}
 
 
-SPACE = GenSpace({"api": gen_api, "text": gen_text, "grid": gen_grid, "defaults": gen_defaults, "types": gen_types, "layouts": gen_layouts,
+# names a form author may give to instance nodes / choice columns that are also names of XForm structure elements
+STRUCT_NAMES = ["text", "item", "root", "instance", "model", "itext", "translation", "value", "label", "hint", "bind", "meta", "input", "group", "repeat",
+                "html", "head", "body", "title", "name", "itextId", "output", "select1", "setvalue", "instanceID", "entity", "data", "submission"]
+NM_VALUES = ["hello world", " x ", "a  b", "a\nb"]
+
+
+def gen_structnames(tier):
+    """questions / groups / choice columns named like XForm structure elements, holding text (a static default, a column value)"""
+    for nm in STRUCT_NAMES:
+        for val in NM_VALUES:
+            for ctx in ("top", "group", "repeat"):
+                for clean in (True, False):
+                    if not clean and val == "hello world":
+                        continue
+                    yield {"g": "names", "nm": nm, "val": val, "ctx": ctx, "clean": clean, "as": "question"}
+            yield {"g": "names", "nm": nm, "val": val, "ctx": "top", "clean": False, "as": "column"}
+            yield {"g": "names", "nm": nm, "val": val, "ctx": "top", "clean": False, "as": "group"}
+
+
+LONG = "a_rather_long_question_name_for_wide_tags"
+LA_COLS = ["constraint_message", "required_message", "calculation", "relevant", "constraint", "required", "bind::custom", "bind::jr:noAppErrorString", "body::custom", "instance::custom",
+           "appearance", "default", "settings.attribute::zz", "settings.instance_name", "settings.submission_url", "repeat_count", "choice_filter", "trigger", "parameters.seed"]
+LA_VALUES = ["1\n+ 2", "1\t+ 2", "1\r\n+ 2", "1   +   2", "1 +\n\n2", "1 + 2\n"]
+
+
+def gen_longattr(tier):
+    """attribute values with line breaks / tabs / runs of spaces on elements whose start tag is short or very long (nesting depth 0..2 under long names)"""
+    for col in LA_COLS:
+        for val in LA_VALUES:
+            for depth in (0, 1, 2):
+                for nattr in (0, 3):
+                    yield {"g": "longattr", "col": col, "val": val, "depth": depth, "nattr": nattr}
+
+
+SPACE = GenSpace({"structnames": gen_structnames, "longattr": gen_longattr, "api": gen_api, "text": gen_text, "grid": gen_grid, "defaults": gen_defaults, "types": gen_types, "layouts": gen_layouts,
                   "multiline": gen_multiline, "typed": gen_typed}, chunk=400)
 blocks = SPACE.blocks
 expand = SPACE.expand
@@ -152,6 +186,59 @@ def build(case):
         return wb, {}
     if g == "typed":
         return typed_wb(case["mask"]), {}
+    if g == "names":
+        nm, val = case["nm"], case["val"]
+        rows = [{"type": "text", "name": "t0", "label": "T0"}]
+        ch = [{"list_name": "c", "name": "x", "label": "X"}, {"list_name": "c", "name": "y", "label": "Y"}]
+        if case["as"] == "question":
+            q = [{"type": "text", "name": nm, "label": "Q", "default": val}]
+        elif case["as"] == "group":
+            q = [{"type": "begin group", "name": nm, "label": "G"}, {"type": "text", "name": "inner", "label": "I", "default": val}, {"type": "end group"}]
+        else:
+            q = [{"type": "select_one c", "name": "s", "label": "S"}]
+            ch[0][nm] = val
+            ch[1][nm] = "plain"
+        if case["ctx"] != "top":
+            q = [{"type": f"begin {case['ctx']}", "name": "w", "label": "W"}, *q, {"type": f"end {case['ctx']}"}]
+        wb = {"survey": rows + q, "choices": ch}
+        if not case["clean"]:
+            wb["settings"] = [{"clean_text_values": "no"}]
+        return wb, {}
+    if g == "longattr":
+        col, val = case["col"], case["val"]
+        q = {"type": "integer", "name": LONG, "label": "Q"}
+        extra = {f"bind::x{i}": "some value that makes the tag wide " + str(i) for i in range(case["nattr"])}
+        q.update(extra)
+        wb = {"settings": [{"clean_text_values": "no"}]}
+        rows = [{"type": "text", "name": "t0", "label": "T0"}]
+        ch = [{"list_name": "c", "name": "x", "label": "X", "f": "1"}]
+        if col.startswith("settings."):
+            wb["settings"][0][col.split(".", 1)[1]] = val
+        elif col == "repeat_count":
+            q = None
+        elif col == "choice_filter":
+            q.update(type="select_one c", choice_filter="f = " + val)
+        elif col == "trigger":
+            q.update(type="calculate", calculation=val, trigger="${t0}")
+            q.pop("label")
+        elif col == "parameters.seed":
+            q.update(type="select_one c", parameters="randomize=true seed=7")
+            q["label"] = val
+        elif col == "calculation":
+            q[col] = val
+        elif col in ("appearance",):
+            q[col] = val.replace("1", "w1").replace("+", "w").replace("2", "w2")
+        else:
+            q[col] = val
+            if col == "constraint_message":
+                q["constraint"] = ". > 0"
+            if col == "required_message":
+                q["required"] = "yes"
+        body = [q] if q else [{"type": "begin repeat", "name": LONG, "label": "R", "repeat_count": val, **extra}, {"type": "text", "name": "i", "label": "I"}, {"type": "end repeat"}]
+        for d in range(case["depth"]):
+            body = [{"type": "begin group", "name": f"{LONG}_{d}", "label": "G"}, *body, {"type": "end group"}]
+        wb.update(survey=rows + body, choices=ch)
+        return wb, {}
     if g == "grid":
         return grid.build([tuple(c) for c in case["cells"]], case["dl"], ref=case["ref"])
     if g == "default":
